@@ -65,19 +65,19 @@ func (r replaySrc) U64() uint64 { return r.next() }
 
 // ValCfg selects value features.
 type ValCfg struct {
-	HostileF32    bool // NaN / ±Inf in float32
-	HostileF64    bool // NaN / ±Inf in float64
-	HostileNumber bool // ill-formed json.Number text
-	ASCII         bool // strings are printable ASCII plus the characters needing escapes
+	HostileF32    bool                                             // NaN / ±Inf in float32
+	HostileF64    bool                                             // NaN / ±Inf in float64
+	HostileNumber bool                                             // ill-formed json.Number text
+	ASCII         bool                                             // strings are printable ASCII plus the characters needing escapes
 	Custom        map[reflect.Type]func(Src, ValCfg) reflect.Value // type-specific builders (hostile marshalers)
-	MaxLen        int  // max slice/map length (default 3)
-	NaturalIface  bool // interface{} holds only JSON-natural values (float64,string,bool,nil,[]interface{},map[string]interface{})
-	ValidUTF8     bool // strings are valid UTF-8
-	NoNil         bool // no nil pointers (used for some decode destinations)
-	RoundTrip     bool // only values that survive JSON (no raw with whitespace etc.)
-	NoNilTypes    []reflect.Type // map/slice types never left nil (known-finding avoidance)
-	NoNilPtrTo    []reflect.Type // pointers to these types are never nil
-	PlainMapKeys  bool           // string map keys drawn from [a-z0-9] only
+	MaxLen        int                                              // max slice/map length (default 3)
+	NaturalIface  bool                                             // interface{} holds only JSON-natural values (float64,string,bool,nil,[]interface{},map[string]interface{})
+	ValidUTF8     bool                                             // strings are valid UTF-8
+	NoNil         bool                                             // no nil pointers (used for some decode destinations)
+	RoundTrip     bool                                             // only values that survive JSON (no raw with whitespace etc.)
+	NoNilTypes    []reflect.Type                                   // map/slice types never left nil (known-finding avoidance)
+	NoNilPtrTo    []reflect.Type                                   // pointers to these types are never nil
+	PlainMapKeys  bool                                             // string map keys drawn from [a-z0-9] only
 }
 
 func inTypes(l []reflect.Type, t reflect.Type) bool {
@@ -327,7 +327,7 @@ func IntValue(s Src, bits int) int64 {
 			return x
 		}
 		if x < min || x > max {
-			return x<<(64-bits)>>(64-bits) // truncate to width (sign-extended)
+			return x << (64 - bits) >> (64 - bits) // truncate to width (sign-extended)
 		}
 		return x
 	}
